@@ -229,3 +229,25 @@ Theorem exit_returns_bounded_interference_witness :
   thr s' (c_loop C) = Done /\ returned s' = true.
 Proof. exact C14.ProofsSolo2.bounded_interference_example. Qed.
 Print Assumptions exit_returns_bounded_interference_witness.
+
+(* C14 — the hazard the monitor watches (ghost g_uaf, config flag c_del), both repairs applied: a
+   requester still inside muggle_evloop_exit (flag set, signal not written yet) when the owner
+   deletes the loop after muggle_evloop_run returned on a second request: its write of the signal
+   is a library call on the deleted loop *)
+From MV Require C14.ProofsUaf.
+Theorem loop_deleted_while_exit_in_flight_witness :
+  let C := C14.ProofsUaf.cfg_delete_race in
+  let s := exec sys (step C) init C14.ProofsUaf.sched_delete_race in
+  let s' := exec sys (step C) init (C14.ProofsUaf.sched_delete_race ++ [(0,0)]) in
+  c_fix_exit C = true /\ c_fix_add C = true /\ c_del C = true /\
+  thr s 0 = AWrite 0 /\ thr s 1 = Done /\ returned s = true /\ lfreed s = true /\ g_uaf s = 0 /\
+  thr s' 0 = STail 0 /\ g_uaf s' = 1.
+Proof. exact C14.ProofsUaf.loop_deleted_while_exit_in_flight. Qed.
+Print Assumptions loop_deleted_while_exit_in_flight_witness.
+
+(* C14 — g_uaf (library calls on the deleted loop) changes only by one and only at a step taken
+   while the loop is already deleted (lfreed) *)
+Theorem uaf_only_by_step_after_delete : forall C s t ch s' l, step C s t ch = Some (s', l) ->
+  g_uaf s' = g_uaf s \/ (lfreed s = true /\ g_uaf s' = S (g_uaf s)).
+Proof. exact C14.ProofsUaf.uaf_step. Qed.
+Print Assumptions uaf_only_by_step_after_delete.
